@@ -73,7 +73,7 @@ func decNum(s string) numv {
 	if !ok {
 		panic("bad decimal " + s)
 	}
-	return numv{id: s, v: system.MustParseDecimal(s), rat: r, src: "sys"}
+	return numv{id: s, v: lib.Dec(s), rat: r, src: "sys"}
 }
 
 func intGrid(tier string) []numv {
